@@ -205,11 +205,14 @@ class MarkupMachine(Machine):
         models = []
         for model in self.models:
             state = getattr(model, self.model_attribute)
-            model_def = dict(state=state.name if isinstance(state, Enum) else state)
+            model_def = dict(state=self._convert_model_state(state))
             model_def['name'] = model.name if hasattr(model, 'name') else str(id(model))
             model_def['class-name'] = 'self' if model == self else model.__module__ + "." + model.__class__.__name__
             models.append(model_def)
         return models
+
+    def _convert_model_state(self, state):
+        return state.name if isinstance(state, Enum) else state
 
     def _omit_auto_transitions(self, event):
         return self.auto_transitions_markup is False and self._is_auto_transition(event)
@@ -240,6 +243,15 @@ class HierarchicalMarkupMachine(MarkupMachine, HierarchicalMachine):
         # the markup always describes the whole machine, also when it is requested while a nested scope is active
         with self():
             return super(HierarchicalMarkupMachine, self).get_markup_config()
+
+    def _convert_model_state(self, state):
+        # nested Enum members are named by their full path, parallel states are lists of such names
+        if isinstance(state, list):
+            return [self._convert_model_state(substate) for substate in state]
+        if isinstance(state, Enum):
+            with self():
+                return self.state_cls.separator.join(self._get_enum_path(state))
+        return state
 
     def on_enter(self, state_name, callback):
         super(HierarchicalMarkupMachine, self).on_enter(state_name, callback)
